@@ -2,8 +2,7 @@
 
 Pipeline:
   prove       Props/C06.v re-checked (Print Assumptions); the routine registered for NoneType is measured on the
-              live code (echo = pinned NoOpMarshaller, strict = repaired): it selects the model the code is tied to
-              (Core.mar / CoreC06.mar_fixed) and therefore which theorem speaks about this tree.
+              live code and must be 'strict' (None is emitted, the rest rejected: the TNone arm of Core.mar).
   correspond  core correspondence on marshal cases that stress C06 (None-first / Literal-first unions, subclass
               instances, deque / OrderedDict containers, recursive classes), evaluated inside Coq together with the
               Coq predicates fa_ty / valid / is_wire, which are compared with the harness' own readings; the leaf laws
@@ -35,9 +34,9 @@ import universe
 from lib import coq_bool, coq_list, coq_nat
 
 COQ_TARGETS = ["theories/Proofs/CoreC06.vo", "theories/Model/CoreC06Eq.vo", "theories/Props/C06.vo"]
-THEOREMS = ["C06_wire", "C06_wire_any_input", "C06_fresh", "C06_fresh_shape", "C06_deterministic",
-            "C06_literal_rejects", "C06_current_is_marG", "C06_wire_current", "C06_refuted_none_first",
-            "C06_refuted_none_first_shares", "C06_refuted_literal_eq"]
+THEOREMS = ["C06_full", "C06_wire", "C06_wire_any_input", "C06_fresh", "C06_fresh_shape", "C06_deterministic",
+            "C06_literal_rejects", "C06_mar_is_mar_fixed", "C06_pinned_none_first_refuted",
+            "C06_pinned_none_first_shares", "C06_refuted_literal_eq"]
 NoneType = type(None)
 PRIMS = (NoneType, bool, int, float, str)
 WIRE = PRIMS + (list, dict)
@@ -197,11 +196,10 @@ def prove(run: lib.Run):
     _STATE["none_mode"] = mode
     run.extra_cov["none_member_routine"] = mode
     run.oblige("reflect:the routine registered for NoneType emits None and rejects everything else "
-               "(CoreC06.mar_fixed is the model of this tree; C06_wire / C06_fresh apply unguarded)",
+               "(the TNone arm of Core.mar)",
                mode == "strict",
                "" if mode == "strict" else
-               f"measured: {mode}. Core.mar (echoing NoneType member) is the model of this tree: only the guarded "
-               f"C06_wire_current applies, C06_refuted_none_first is the excluded region")
+               f"measured: {mode}. An echoing NoneType member is the pinned defect (C06_pinned_none_first_refuted)")
     run.assumptions += [
         "C06: leaves (scalars, enums, Literals, None) are runtime functions; their behaviour enters the theorems as the "
         "record MarshalLaws (law_none, law_robust, law_wire, law_literal), every field of which is sampled on every "
@@ -386,11 +384,10 @@ def valid_py(reg, d, v, table, depth=0):
 
 
 class Mirror06(coremodel.Mirror):
-    """the shared mirror, with the NoneType routine of the tree under test, recording every leaf call"""
+    """the shared mirror, recording every leaf call"""
 
-    def __init__(self, reg, suppressed, strict_none):
+    def __init__(self, reg, suppressed):
         super().__init__(reg, suppressed)
-        self.strict_none = strict_none
         self.calls = []          # (leaf name, input, ('ok', result) | ('raise', kind))
 
     def leaf_m(self, name, x):
@@ -402,18 +399,11 @@ class Mirror06(coremodel.Mirror):
         self.calls.append((name, x, ("ok", r)))
         return r
 
-    def _mar(self, d, x):
-        if d[0] == "none" and self.strict_none:
-            if x is None:
-                return x
-            raise coremodel.ModelRaise("EValue")
-        return super()._mar(d, x)
-
 
 class Group06(coremodel.Group):
-    def __init__(self, env, roots, sup, strict_none):
+    def __init__(self, env, roots, sup):
         super().__init__(env, roots, sup)
-        self.mirror = Mirror06(self.reg, sup["u"], strict_none)
+        self.mirror = Mirror06(self.reg, sup["u"])
         self.extra = []          # per case: (py_fa, py_valid, py_wire)
         self.valid_tbl = {}
         self.values = []         # per case: the input object
@@ -428,7 +418,7 @@ class Group06(coremodel.Group):
         self.values.append(v)
         return obs, fa, va
 
-    def emit06(self, name, strict_none):
+    def emit06(self, name):
         t = self.mirror.t
         reg = self.reg
         sup = coq_list(self.sup["u"], "exn")
@@ -457,8 +447,8 @@ class Group06(coremodel.Group):
             f"  t_valid := {vt};\n"
             f"  t_names := {coq_list([coq_nat(i) for i in names], 'nat')} |}}.\n"
             f"Definition cases : list case06 :=\n  {cases}.\n"
-            f"Definition bad := bad06 {coq_bool(strict_none)} rt E tb {FUEL} cases.\n"
-            f"Definition codes := bad06_codes {coq_bool(strict_none)} rt E tb {FUEL} cases.\n"
+            f"Definition bad := bad06 rt E tb {FUEL} cases.\n"
+            f"Definition codes := bad06_codes rt E tb {FUEL} cases.\n"
             f"Definition sets := sets_ok E tb.\n"
             f"End {name}.\n"
         )
@@ -468,7 +458,7 @@ HEADER06 = ("From Coq Require Import List. Import ListNotations.\n"
             "Require Import TL.Model.Core TL.Model.CoreTables TL.Model.CoreC06 TL.Model.CoreC06Eq.\n")
 
 
-def generate(run, n_groups, strict_none, values_per_root=3):
+def generate(run, n_groups, values_per_root=3):
     rng = random.Random(run.seed * 1000 + 606)
     sup = coreprop.suppressed()
     groups = []
@@ -477,7 +467,7 @@ def generate(run, n_groups, strict_none, values_per_root=3):
         env = c06_env(rng, gi)
         classes = [n for n, d in env["defs"].items() if d[0] in ("class", "alias")]
         roots = adversarial_roots(rng, env, classes)
-        g = Group06(env, roots, sup, strict_none)
+        g = Group06(env, roots, sup)
         for ri, r in enumerate(roots):
             for vi in range(values_per_root):
                 try:
@@ -498,7 +488,7 @@ def generate(run, n_groups, strict_none, values_per_root=3):
     return groups, dist
 
 
-def evaluate(run, groups, strict_none, tag, per_file=8):
+def evaluate(run, groups, tag, per_file=8):
     files, order = {}, []
     for fi in range(0, len(groups), per_file):
         chunk = groups[fi:fi + per_file]
@@ -506,7 +496,7 @@ def evaluate(run, groups, strict_none, tag, per_file=8):
         names = []
         for gi, g in enumerate(chunk):
             nm = f"G{fi + gi}"
-            text += g.emit06(nm, strict_none)
+            text += g.emit06(nm)
             names.append(nm)
         for nm in names:
             text += f"Eval vm_compute in {nm}.bad.\nEval vm_compute in {nm}.codes.\nEval vm_compute in {nm}.sets.\n"
@@ -572,12 +562,10 @@ def sample_laws(run, groups):
 
 
 def correspond(run: lib.Run):
-    mode = _STATE.get("none_mode", "echo")
-    strict_none = mode == "strict"
     n_groups = run.budget(90, 900)
-    groups, dist = generate(run, n_groups, strict_none, values_per_root=run.budget(3, 4))
+    groups, dist = generate(run, n_groups, values_per_root=run.budget(3, 4))
     _STATE["groups"] = groups
-    bad, sets_bad = evaluate(run, groups, strict_none, "c06")
+    bad, sets_bad = evaluate(run, groups, "c06")
     ncases = sum(len(g.cases) for g in groups)
     distinct = len({(g.env["module"], c[1], c[2]) for g in groups for c in g.cases})
     by_bit = collections.Counter()
@@ -591,7 +579,7 @@ def correspond(run: lib.Run):
         mism.append(d)
     _STATE["mismatch"] = [(g, i) for g, i, _ in bad]
     dist = dict(dist)
-    dist["model"] = "CoreC06.mar_fixed" if strict_none else "Core.mar"
+    dist["model"] = "Core.mar"
     dist["mismatch_kinds"] = dict(by_bit)
     dist["fuel"] = FUEL
     run.record_corr("core-mar-c06", ncases, mism, distinct, dist)
@@ -928,7 +916,7 @@ def search(run: lib.Run, broken):
         # harder: a fresh, larger stream
         class R2:
             seed = run.seed + 77
-        more, _ = generate(R2, run.budget(20, 60), _STATE.get("none_mode") == "strict", values_per_root=4)
+        more, _ = generate(R2, run.budget(20, 60), values_per_root=4)
         mf, n2, r2, a2 = oracle_generated(more)
         fails += mf
         nextra = n2
